@@ -236,6 +236,7 @@ func alphabet(k qkind, nid int) []qop {
 }
 
 func TestC13(t *testing.T) {
+	c13Sizes()
 	// -------- exhaustive sequences
 	type scope struct{ nid, depth int }
 	scopes := []scope{{2, 6}, {3, 5}}
@@ -444,4 +445,93 @@ func seqInts(n int) []int {
 		s[i] = i + 1
 	}
 	return s
+}
+
+// c13Sizes: requests whose encoded size sits on the boundaries of the remaining-length field (127/128,
+// 16383/16384, 2097151/2097152 bytes) and around them, registered, acknowledged in reverse order and
+// collected: every request handed back must be byte-identical to the reference encoding of what was
+// registered. (The queue keeps an encoded copy: a length slip in the codec shortens the copy silently.)
+func c13Sizes() {
+	for ki, k := range qkinds {
+		id := "c13/sizes/" + k.name
+		if !mine(ki) || !out.Only(id) {
+			continue
+		}
+		out.Begin(id, uint64(ki), nil)
+		q := newQueue(k)
+		var remlens []int
+		for _, c := range []int{127, 128, 16383, 16384, 2097151, 2097152} {
+			for d := -2; d <= 2; d++ {
+				remlens = append(remlens, c+d)
+			}
+		}
+		type reg struct {
+			id   uint16
+			wire []byte
+		}
+		var regs []reg
+		bad := false
+		for i, rl := range remlens {
+			pid := uint16(i + 1)
+			var rec *rc.Packet
+			switch k.reqType {
+			case rc.PUBLISH:
+				// remaining length = 2 + len(topic) + 2 + len(payload)
+				topic := []byte("t/s")
+				rec = &rc.Packet{Type: rc.PUBLISH, QoS: k.reqQoS, ID: pid, Topic: topic, Payload: spec.MakePayload(uint64(pid), 0, rl-2-len(topic)-2)}
+			case rc.SUBSCRIBE, rc.UNSUBSCRIBE:
+				if rl > 70000 {
+					continue // one filter carries at most 65535 bytes; the 2 MiB boundary is left to PUBLISH
+				}
+				// remaining length = 2 + (2 + len(filter) [+1])
+				per := 2
+				if k.reqType == rc.SUBSCRIBE {
+					per = 3
+				}
+				f := make([]byte, rl-2-per)
+				for j := range f {
+					f[j] = 'a' + byte(j%26)
+				}
+				rec = &rc.Packet{Type: k.reqType, ID: pid, Filters: [][]byte{f}, QoSs: []byte{1}}
+			}
+			want := rc.Encode(rec)
+			m, err := libBuild(rec, false)
+			if err != nil {
+				out.Violation("c13:harness", err.Error(), nil)
+				bad = true
+				break
+			}
+			if err := q.Wait(m, int(pid)); err != nil {
+				out.Violation("c13:wait-error:"+k.name, fmt.Sprintf("request with remaining length %d: %v", rl, err), nil)
+				bad = true
+				break
+			}
+			regs = append(regs, reg{pid, want})
+		}
+		for i := len(regs) - 1; i >= 0 && !bad; i-- {
+			for _, a := range k.acks {
+				am, _ := libBuild(ackRecord(a, regs[i].id), false)
+				if err := q.Ack(am); err != nil {
+					out.Violation("c13:ack-error:"+k.name, err.Error(), nil)
+					bad = true
+				}
+			}
+		}
+		if !bad {
+			got := q.Acked()
+			if len(got) != len(regs) {
+				out.Violation("c13:collect-count:"+k.name, fmt.Sprintf("%d requests registered and acknowledged, %d handed back", len(regs), len(got)), nil)
+			} else {
+				for i, g := range got {
+					if g.Pktid != regs[i].id || !bytes.Equal(g.Msgbuf, regs[i].wire) {
+						out.Violation("c13:request-bytes:size-boundary:"+k.name, fmt.Sprintf("request %d (%d bytes on the wire): the copy handed back has %d bytes and differs from the original", regs[i].id, len(regs[i].wire), len(g.Msgbuf)), nil)
+						break
+					}
+					out.Count("c13.size_boundary_requests", 1)
+				}
+			}
+		}
+		out.Class("sizes/" + k.name)
+		out.End()
+	}
 }
